@@ -14,6 +14,7 @@ def run(ck: Checker):
     ck.rule('C06-6', "bounded wait: the wait for a free slot carries a timeout derived from the caller's timeout", minimum=2)
     ck.rule('C06-7', 'reject at once: with backpressure no wait on the admission condition is reachable (GUARD on the backpressure flag)', minimum=2)
     ck.rule('C06-12', 'one timeout for admission and result: the deadline stored with the request is anchored at a clock reading taken before the admission wait (PRECEDE)', minimum=1)
+    ck.rule('C06-13', 'a wake-up is not wasted: a waiter woken by the per-request notify() either takes the slot, re-evaluates the capacity guard (slot taken by another caller), or passes the wake-up on before it can leave by an exception (MUSTPASS)', minimum=2)
     ck.rule('C06-8', 'time remaining: a wait inside the re-check loop is bounded by a value recomputed from the clock in that pass (FRESH)', minimum=2)
     for name in server.SERVERS:
         s = server.discover(ck.repo, name)
@@ -26,6 +27,7 @@ def run(ck: Checker):
         server.check_reject_at_once(ck, 'C06-7', s)
         server.check_remaining_time(ck, 'C06-8', s)
         server.check_single_deadline(ck, 'C06-12', s)
+        server.check_wakeup_not_wasted(ck, 'C06-13', s)
     ck.rule('C06-9', 'the caller\'s timeout reaches the admission wait as given: re-bound only under `is None`, never replaced through truthiness (0 is legal) (GUARD)', minimum=4)
     from .common import check_timeout_passthrough
 
